@@ -157,8 +157,27 @@ func hangClass(dump string) (sig string) {
 		return "channels-closed"
 	}
 	sendUnderLock, apiBlocked, readerInRead, readerExists, senderParked := false, false, false, false, false
+	apiParkedElsewhere, holderBusy := false, false
 	lockWaiters, lockHolders := 0, 0
 	for _, g := range core.Goroutines(dump) {
+		hdr := g
+		if i := strings.Index(g, "\n"); i > 0 {
+			hdr = g[:i]
+		}
+		inAPI := false
+		for _, fn := range []string{"fsnotify.(*Watcher).Add", "fsnotify.(*Watcher).Remove", "fsnotify.(*Watcher).WatchList", "fsnotify.(*Watcher).Close"} {
+			if strings.Contains(g, fn) {
+				inAPI = true
+			}
+		}
+		inMutex := strings.Contains(g, "sync.(*Mutex).Lock") || strings.Contains(g, "sync.(*Mutex).lockSlow")
+		if inAPI && !inMutex {
+			for _, st := range []string{"[chan receive", "[select", "[sync.Cond.Wait", "[semacquire", "[sync.WaitGroup.Wait", "[chan send"} {
+				if strings.Contains(hdr, st) && !strings.Contains(g, "(*shared).sendE") {
+					apiParkedElsewhere = true
+				}
+			}
+		}
 		if strings.Contains(g, "github.com/fsnotify/fsnotify.") {
 			inCS := false
 			for _, fn := range []string{"(*inotify).handleEvent", "(*inotify).AddWith", "(*inotify).Remove", "(*inotify).remove", "(*inotify).WatchList", "(*inotify).register", "(*shared).close", "(*watches)."} {
@@ -170,6 +189,9 @@ func hangClass(dump string) (sig string) {
 				lockWaiters++
 			} else if inCS {
 				lockHolders++
+				if (strings.Contains(hdr, "[running") || strings.Contains(hdr, "[runnable")) && !strings.Contains(g, "(*shared).sendE") {
+					holderBusy = true
+				}
 			}
 		}
 		inSend := strings.Contains(g, "(*shared).sendError") || strings.Contains(g, "(*shared).sendEvent")
@@ -178,7 +200,7 @@ func hangClass(dump string) (sig string) {
 			if strings.Contains(g, "internal/poll.(*FD).Read") || strings.Contains(g, "poll.runtime_pollWait") {
 				readerInRead = true
 			}
-			if inSend {
+			if inSend || strings.Contains(hdr, "[select") || strings.Contains(hdr, "[chan send") {
 				senderParked = true
 			}
 		}
@@ -200,6 +222,12 @@ func hangClass(dump string) (sig string) {
 			return "deadlock:send-under-lock+api-blocked"
 		}
 		return "send-under-lock"
+	case apiParkedElsewhere && senderParked:
+		// a control call waits (not for the lock, but on a channel / condition) for something only the
+		// reader can do, and the reader is parked in a send nobody receives
+		return "api-waits-for-reader-parked-in-send"
+	case lockWaiters > 0 && holderBusy:
+		return "lock-holder-busy"
 	case !readerExists:
 		return "no-reader-goroutine"
 	case readerInRead:
@@ -208,6 +236,22 @@ func hangClass(dump string) (sig string) {
 		return "reader-parked-in-send"
 	}
 	return "unclassified"
+}
+
+// persistentHangClass re-samples the goroutine dump after a pause: classes that describe a state that
+// could be transient on a loaded machine (a running lock holder, an API call parked on a channel) are only
+// reported when two dumps 2 s apart - after the 20 s watchdog - agree.
+func persistentHangClass(dump string) (string, string) {
+	cls := hangClass(dump)
+	if cls != "lock-holder-busy" && cls != "api-waits-for-reader-parked-in-send" {
+		return cls, dump
+	}
+	time.Sleep(2 * time.Second)
+	d2 := core.AllStacks()
+	if c2 := hangClass(d2); c2 != cls {
+		return "transient:" + cls, dump
+	}
+	return cls, d2
 }
 
 func dumpExcerpt(dump string) string {
